@@ -12,6 +12,7 @@ from __future__ import annotations
 
 import hashlib
 import io
+import os
 import re
 
 from lxml import etree
@@ -174,7 +175,12 @@ class TextEngine:
     def gen_op(self, rng):
         if self.prop == "C05":
             if rng.chance(self.cfg["p_restart"], "restart?"):
-                return {"op": "restart"}
+                op = {"op": "restart"}
+                if rng.chance(0.3, "rdoc"):
+                    # through a document: saved (plain: pretty=False said explicitly, also for the folder packaging
+                    # whose default is pretty) and opened again
+                    op["how"] = rng.choice(["doc_zip", "doc_folder_plain"], "rdochow")
+                return op
             via = rng.weighted([("append_plain_text", 4), ("append", 4), ("element", 2), ("second_handle", 1.5 if self.host is not None else 0)], "via")
             op = {"op": "append", "chunk": self._string(rng, max(1, self.cfg["max_len"] // 2)), "via": via}
             if via == "element":
@@ -254,9 +260,35 @@ class TextEngine:
                 self.n_ops += 1
             else:
                 added = ""
+                how = op.get("how", "xml")
                 if self.host is not None:
                     self.host = Element.from_tag(self.host.serialize())
                     self.el = self.host.get_spans()[0]
+                elif how in ("doc_zip", "doc_folder_plain") and type(self.el).__name__ in ("Paragraph", "Header"):
+                    import shutil as _sh
+                    import tempfile as _tf
+
+                    from odfdo import Document
+
+                    d = Document("text")
+                    d.body.clear()
+                    d.body.append(self.el)
+                    feats.append("restart:" + how)
+                    if how == "doc_zip":
+                        buf = io.BytesIO()
+                        d.save(buf, pretty=False)
+                        buf.seek(0)
+                        d2 = Document(buf)
+                        self.el = d2.body.children[0]
+                    else:
+                        tmp = _tf.mkdtemp(prefix="odfdo-verif-P-", dir="/dev/shm" if os.path.isdir("/dev/shm") else None)
+                        try:
+                            target = os.path.join(tmp, "p.odt")
+                            d.save(target, packaging="folder", pretty=False)
+                            d2 = Document(target + ".folder" if os.path.isdir(target + ".folder") else target)
+                            self.el = Element.from_tag(d2.body.children[0].serialize())
+                        finally:
+                            _sh.rmtree(tmp, ignore_errors=True)
                 else:
                     self.el = Element.from_tag(self.el.serialize())
                 self.n_restart += 1
